@@ -14,11 +14,28 @@ Theorem C12_step_equals_fresh : forall n cs stored fr,
 Proof. exact step_equals_fresh. Qed.
 Print Assumptions C12_step_equals_fresh.
 
-(* exhaustive over the finite domain (13 element tables x 43 columns = 559 pairs, [domain]): every ConstControl on
+(* exhaustive over the finite domain (13 element tables x 81 columns = 1053 pairs, [domain]): every ConstControl on
    net[e][v], recyclable or not, is sound *)
 Theorem C12_recycle_sound : forall u e v, In (e, v) domain -> sound (CConst u e v) = true.
 Proof. exact const_sound_all. Qed.
 Print Assumptions C12_recycle_sound.
+
+(* the finite domain is structurally complete: every (element, variable) from which the dependency table computes any cached
+   part lies in the domain (the table itself is compared with a mechanical derivation from the code on every run) *)
+Theorem C12_deps_in_domain : forall e v, deps e v <> [] -> In (e, v) domain.
+Proof. exact deps_in_domain. Qed.
+Print Assumptions C12_deps_in_domain.
+
+(* hence without the domain hypothesis: a ConstControl on ANY (element, variable) string pair is sound, and every controller set
+   the model can express, over any number of time steps, solves every step with fresh parts *)
+Theorem C12_recycle_sound_any : forall u e v, sound (CConst u e v) = true.
+Proof. exact const_sound_any. Qed.
+Print Assumptions C12_recycle_sound_any.
+
+Theorem C12_time_series_equals_fresh_any : forall n cs stored fr,
+  fresh fr -> Forall (fun fr' => solve_is_fresh fr' = true) (run_steps n cs stored fr).
+Proof. exact step_equals_fresh_any. Qed.
+Print Assumptions C12_time_series_equals_fresh_any.
 
 Theorem C12_tap_controller_sound : forall u e, sound (CTap u e) = true.
 Proof. exact tap_sound. Qed.
@@ -104,5 +121,5 @@ Example C12_nonvacuous :
   writer false false [{| l_table := "res_bus"; l_var := "vm_pu"; l_long := false |};
                       {| l_table := "res_bus"; l_var := "va_degree"; l_long := false |}] = WBatchOk.
 Proof.
-  split; [repeat constructor; vm_compute; tauto|]. split; [vm_compute; discriminate | reflexivity].
+  split; [repeat constructor; apply pair_in_domain_In; vm_compute; reflexivity|]. split; [vm_compute; discriminate | reflexivity].
 Qed.
